@@ -239,4 +239,18 @@ theorem C05_rne64_within_one (n R C T : Int)
     exact - 1 ≤ neededFromPct rne64 n (pct1 rne64 R C) T ∧ neededFromPct rne64 n (pct1 rne64 R C) T ≤ exact + 1 :=
   C05_float_within_one rne64 _ StdModel_rne64 n R C T hn hn' hR hR' hC hC' hT hT' hbudget
 
+/-- **C05 in full for the executed float model, inside the region** `(8·N* + 4·n)·s·T·2⁻⁵³ < 1`: the node
+    count after the scale-up lies in `[N, N+1]`, `N = ⌈100·R/(s·T)⌉` the minimal sufficient count. -/
+theorem C05_rne64_full_in_region (n R s T : Int)
+    (hn : 1 ≤ n) (hn' : n ≤ 2 ^ 53) (hR : 0 ≤ R) (hR' : R ≤ 2 ^ 53) (hs : 1 ≤ s) (hC' : n * s ≤ 2 ^ 53)
+    (hT : 1 ≤ T) (hT' : T ≤ 2 ^ 53)
+    (hgran : (n : Rat) / T * (8 * (1 / 2 ^ 53) * (100 * ((R : Rat) / ((n * s : Int) : Rat))) + 4 * (1 / 2 ^ 53) * T) < 1 / ((s : Rat) * T)) :
+    let N := ((100 * R : Int) / ((s * T : Int) : Rat) : Rat).ceil
+    N ≤ n + neededFromPct rne64 n (pct1 rne64 R (n * s)) T ∧ n + neededFromPct rne64 n (pct1 rne64 R (n * s)) T ≤ N + 1 :=
+  C05_float_full_in_region rne64 _ StdModel_rne64 n R s T hn hn' hR hR' hs hC' hT hT' hgran
+
+/-- Non-vacuity of the region: 20 nodes × 4000 m, threshold 70, 97 000 m requested. -/
+example : ((20 : Int) : Rat) / (70 : Int) * (8 * (1 / 2 ^ 53) * (100 * (((97000 : Int) : Rat) / ((20 * 4000 : Int) : Rat))) + 4 * (1 / 2 ^ 53) * (70 : Int)) <
+    1 / (((4000 : Int) : Rat) * (70 : Int)) := by norm_num
+
 end Esc.P
